@@ -360,6 +360,12 @@ fn entry_points(doc: &str) -> Option<String> {
     }
 }
 
+pub fn replay_entry_points(j: &serde_json::Value) -> Vec<String> {
+    let r = vec![entry_points(j["document"].as_str().unwrap_or("")).unwrap_or_else(|| "File::parse, FromStr and File::open agree".into())];
+    remove_scratch_dir();
+    r
+}
+
 pub fn remove_scratch_dir() {
     let _ = std::fs::remove_dir_all(std::env::temp_dir().join(format!("dtr-verif-open-{}", std::process::id())));
 }
@@ -406,7 +412,7 @@ pub fn run(tier: Tier, seed: u64) -> i32 {
                 let doc = digxml::render(&pins, &tests);
                 st.witness("entry_points_compared");
                 if let Some(d) = entry_points(&doc) {
-                    st.violation("File::open / FromStr differ from File::parse", 1 << 59 | pi << 12 | ti as u64, format!("pins: {:?}\ntests: {:?}\n{d}", pins.iter().map(|p| p.show()).collect::<Vec<_>>(), tests.iter().map(|t| format!("{:?}: {:?}", t.label, t.source)).collect::<Vec<_>>()), || json!({"kind": "dig", "document": doc, "expected": ["File::parse, FromStr and File::open agree"], "observed": [d.clone()]}));
+                    st.violation("File::open / FromStr differ from File::parse", 1 << 59 | pi << 12 | ti as u64, format!("pins: {:?}\ntests: {:?}\n{d}", pins.iter().map(|p| p.show()).collect::<Vec<_>>(), tests.iter().map(|t| format!("{:?}: {:?}", t.label, t.source)).collect::<Vec<_>>()), || json!({"kind": "entry_points", "document": doc, "expected": ["File::parse, FromStr and File::open agree"], "observed": [d.clone()]}));
                 }
             }
             if let Some((class, desc)) = check_doc(&pins, &tests, st) {
@@ -505,7 +511,7 @@ pub fn run(tier: Tier, seed: u64) -> i32 {
             if i % 10 == 0 {
                 st.witness("entry_points_compared_on_corrupted_documents");
                 if let Some(d) = entry_points(&c) {
-                    st.violation("File::open / FromStr differ from File::parse", (1 << 58) + ((bi as u64) << 32) + i as u64, format!("base document: {bname}\ncorruption index {i}\n{d}"), || json!({"kind": "dig", "document": c, "expected": ["File::parse, FromStr and File::open agree"], "observed": [d.clone()]}));
+                    st.violation("File::open / FromStr differ from File::parse", (1 << 58) + ((bi as u64) << 32) + i as u64, format!("base document: {bname}\ncorruption index {i}\n{d}"), || json!({"kind": "entry_points", "document": c, "expected": ["File::parse, FromStr and File::open agree"], "observed": [d.clone()]}));
                     return;
                 }
             }
